@@ -124,7 +124,7 @@ var opNames = []string{
 	"src", "cat", "id", "cat2", "pick", "tuple", "nested", "rec", "field", "method", "iface", "ifaceval",
 	"global", "globalfn", "cloread", "cloparam", "clowrite", "funcval", "apply", "map", "slice", "chan",
 	"ptrparam", "phi", "loop", "constarg", "deferres", "sinkhelper", "cloretclo", "field2", "retstruct",
-	"sinkhelper2", "sinkclosure", "globalfn2", "boundmethod", "globallazy", "globalmulti",
+	"sinkhelper2", "sinkclosure", "globalfn2", "boundmethod", "globallazy", "globalmulti", "globalswap",
 }
 
 // opt-in operations (C03_OPS): shapes that hit an OPEN finding on the current tree.
@@ -319,6 +319,15 @@ func (c *caseGen) op(name string) {
 		c.emit("%s := &S{f: %s}", sv, c.pick())
 		c.emit("switch {\n\tcase cond(%d):\n\t\tseta%s(%s)\n\tcase cond(%d):\n\t\tsetb%s(%s)\n\tdefault:\n\t\tsetc%s(%s)\n\t}", p.condBit(), g, a, p.condBit(), g, b, g, sv)
 		c.emit("%s := get%s()", v, g)
+	case "globalswap":
+		// ONE function reads and writes the global and is called at two sites: the value returned by the
+		// second call was stored through the first (the global read must reach the writes of EVERY call
+		// site of the writer, whatever call the backward traversal is currently inside; red-team C03-r2-m2)
+		g := "g" + p.helper()
+		fmt.Fprintf(&p.top, "var %s string\n\nfunc swap%s(p string) string {\n\told := %s\n\t%s = p\n\treturn old\n}\n", g, g, g, g)
+		a, b := c.pick2()
+		c.emit("swap%s(%s)", g, a)
+		c.emit("%s := swap%s(%s)", v, g, b)
 	case "sinkhelper2":
 		// one helper holding the backtrace point, called from two sites with different data: without
 		// calling context the parameter must flow back to ALL call sites
